@@ -483,3 +483,88 @@ func RLetterRange(c *core.Ctx) {
 		c.Anchor("range tests starting at 'A', 'a' or '0'")
 	}
 }
+
+// ---------------------------------------------------------------------------
+// R-OR20: `(a|0x20) == (b|0x20)` means "same letter up to case" only for
+// letters: '@' and '`', '[' and '{', '\\' and '|' … also differ in bit 5 only.
+// The comparison therefore has to be conjoined with a letter test of both.
+// ---------------------------------------------------------------------------
+
+func ROr20(c *core.Ctx) {
+	c.Rule("R-OR20", "every equality test between two values that are both OR-ed with 0x20 (the ASCII 'same letter up to case' idiom) stands in a conjunction that also tests both operands for being letters (unicode.IsLetter or a letter range test): bit 5 is the only difference for non-letter pairs such as '@' / '`' or '[' / '{' too", 1)
+	p := c.P
+	n := 0
+	for _, pk := range p.ModulePkgs() {
+		info := pk.TypesInfo
+		for _, fd := range p.FuncDecls(pk) {
+			if fd.Body == nil || p.IsTestFile(fd.Pos()) {
+				continue
+			}
+			name := core.DeclName(pk, fd)
+			var stack []ast.Node
+			cnt := 0
+			ast.Inspect(fd.Body, func(x ast.Node) bool {
+				if x == nil {
+					stack = stack[:len(stack)-1]
+					return true
+				}
+				stack = append(stack, x)
+				be, ok := x.(*ast.BinaryExpr)
+				if !ok || be.Op != token.EQL {
+					return true
+				}
+				or20 := func(e ast.Expr) (string, bool) {
+					o, ok := ast.Unparen(e).(*ast.BinaryExpr)
+					if !ok || o.Op != token.OR {
+						return "", false
+					}
+					if k, ok := core.ConstInt(info, o.Y); ok && k == 0x20 {
+						return types.ExprString(ast.Unparen(o.X)), true
+					}
+					if k, ok := core.ConstInt(info, o.X); ok && k == 0x20 {
+						return types.ExprString(ast.Unparen(o.Y)), true
+					}
+					return "", false
+				}
+				a, ok1 := or20(be.X)
+				b, ok2 := or20(be.Y)
+				if !ok1 || !ok2 {
+					return true
+				}
+				cnt++
+				n++
+				c.Visit(name)
+				// the outermost enclosing && chain
+				var top ast.Expr = be
+				for i := len(stack) - 2; i >= 0; i-- {
+					if pe, ok := stack[i].(*ast.ParenExpr); ok {
+						top = pe
+						continue
+					}
+					if pb, ok := stack[i].(*ast.BinaryExpr); ok && pb.Op == token.LAND {
+						top = pb
+						continue
+					}
+					break
+				}
+				letter := map[string]bool{}
+				for _, cj := range conjuncts(top) {
+					ast.Inspect(cj, func(y ast.Node) bool {
+						if call, ok := y.(*ast.CallExpr); ok && len(call.Args) == 1 {
+							if cal := core.Callee(info, call); cal != nil && cal.Pkg() != nil && cal.Pkg().Path() == "unicode" && (cal.Name() == "IsLetter" || cal.Name() == "IsLower" || cal.Name() == "IsUpper") {
+								letter[types.ExprString(ast.Unparen(call.Args[0]))] = true
+							}
+						}
+						return true
+					})
+				}
+				c.Check(letter[a] && letter[b], fmt.Sprintf("%s / bit-5 equality #%d is restricted to letters", name, cnt), be.Pos(),
+					"(%s|0x20) == (%s|0x20) without a letter test of both operands in the same conjunction: non-letter pairs that differ only in bit 5 ('@' and '`', '[' and '{') are taken for the two cases of one letter", a, b)
+				return true
+			})
+		}
+	}
+	if n == 0 {
+		c.Anchor("an equality of two values OR-ed with 0x20")
+	}
+}
